@@ -356,6 +356,9 @@ pub fn generate(rng: &mut Rng, _prop: Prop) -> Scenario {
             continue;
         }
         let mut m = gen_token_msg(rng, t).int("_dir", d as u64).int("_t", at);
+        if integrated && rng.chance(1, 3) {
+            m = m.int("_frag", rng.range(2, 6));
+        }
         if !f.is_empty() {
             m = m.str("_fault", f);
         } else if skewed && f_skew {
@@ -378,6 +381,7 @@ pub fn execute(scn: &Scenario, ctx: &mut Ctx) {
         ctx.fault("midstream-pickup");
     }
     let mut steps = 0u32;
+    let mut parsers = [TlsRecordsParser::default(), TlsRecordsParser::default()];
     for m in &scn.items {
         match m.kind.as_str() {
             "knob" => continue,
@@ -401,81 +405,107 @@ pub fn execute(scn: &Scenario, ctx: &mut Ctx) {
         }
         let token = token_of(m);
         // the message value the monitor sees: constructed by the peer stub, or (integrated batch)
-        // produced by the real parser from the wire encoding
-        let wire: Vec<u8>;
-        let parsed: Vec<TlsMessage>;
-        let built: Option<TlsMessage>;
-        let msg: &TlsMessage = if integrated {
+        // produced by the real pipeline from the wire encoding: raw record(s) -> per-direction
+        // TlsRecordsParser (the record layer may fragment the message) -> message value
+        let mut stepped = false;
+        if integrated {
             let payload = enc::tls_message(m);
-            wire = enc::tls_record(enc::content_type(&m.kind), 0x0303, payload.len() as u64, &payload);
-            let r = ctx.call("parse_tls_plaintext", wire.len(), 0, || parse_tls_plaintext(&wire));
-            match r {
-                Some(Ok((_, p))) if p.msg.len() == 1 && val::same(&val::msg_to_item(&p.msg[0]), m) => {
-                    parsed = p.msg;
-                    &parsed[0]
-                }
-                _ => {
-                    // the wire path did not deliver this message (C03's business): fall back to the constructed value
-                    built = val::build_message(m);
-                    match &built {
-                        Some(b) => b,
-                        None => continue,
+            let ctype = enc::content_type(&m.kind);
+            let nfrag = if ctype == 22 { (m.u("_frag") as usize).clamp(1, 6).min(payload.len().max(1)) } else { 1 };
+            if nfrag > 1 {
+                ctx.fault("record-fragmentation");
+            }
+            let parser = &mut parsers[to_server as usize];
+            let mut wires: Vec<Vec<u8>> = Vec::new();
+            for i in 0..nfrag {
+                let lo = payload.len() * i / nfrag;
+                let hi = payload.len() * (i + 1) / nfrag;
+                wires.push(enc::tls_record(ctype, 0x0303, (hi - lo) as u64, &payload[lo..hi]));
+            }
+            let mut ok = true;
+            for (i, w) in wires.iter().enumerate() {
+                let raw = match ctx.call("parse_tls_raw_record", w.len(), 0, || parse_tls_raw_record(w)) {
+                    Some(Ok((_, r))) => r,
+                    _ => {
+                        ok = false;
+                        break;
+                    }
+                };
+                let last = i + 1 == wires.len();
+                // the result borrows the parser: evaluate the step inside the same scope
+                let r = ctx.call("TlsRecordsParser::parse_record", w.len(), 11 << 20, || parser.parse_record(raw));
+                match r {
+                    Some(Ok((_, msgs))) if last && msgs.len() == 1 && val::same(&val::msg_to_item(&msgs[0]), m) => {
+                        do_step(ctx, &edges, &mut state, &msgs[0], to_server, token, onerr_invalid, &mut steps);
+                        stepped = true;
+                    }
+                    Some(Err(tls_parser::Err::Incomplete(_))) if !last => {}
+                    _ => {
+                        ok = false;
+                        break;
                     }
                 }
             }
-        } else {
-            built = val::build_message(m);
-            match &built {
-                Some(b) => b,
+            if !ok || !stepped {
+                // the wire path did not deliver this message (C03 / C07's business)
+                parsers[to_server as usize].reset();
+            }
+        }
+        if !stepped {
+            match val::build_message(m) {
+                Some(b) => do_step(ctx, &edges, &mut state, &b, to_server, token, onerr_invalid, &mut steps),
                 None => continue,
             }
-        };
-        let before = state;
-        let got = ctx.call("tls_state_transition", 0, 0, || tls_state_transition(real_state(before), msg, to_server));
-        let got = match got {
-            Some(g) => g,
-            None => return,
-        };
-        let want = accept(&edges, before, token, to_server);
-        let got_idx: Option<usize> = match &got {
-            Ok(s) => Some(state_index(*s)),
-            Err(_) => None,
-        };
-        let cell = ((before * 2 + to_server as usize) * 23 + token) as u32;
-        ctx.cell("transition", cell);
-        ctx.log(8, cell as u64, got_idx.map(|x| x as u64 + 1).unwrap_or(0));
-        ctx.trace(8, cell as u64 * 32 + got_idx.map(|x| x as u64 + 1).unwrap_or(0), 0);
-        steps += 1;
-        let bad_err = matches!(&got, Err(e) if *e != StateChangeError::InvalidTransition);
-        if got_idx != want || bad_err {
-            let show = |x: Option<usize>| x.map(|i| format!("Ok({})", STATES[i])).unwrap_or_else(|| "Err(InvalidTransition)".into());
-            ctx.violate(Prop::C08, format!("flow/{}/{}/{}", STATES[before], if to_server { "to_server" } else { "to_client" }, TOKENS[token]), || {
-                format!(
-                    "state {} + {} {}: tls_state_transition answered {}{}, the documented flows say {}",
-                    STATES[before],
-                    TOKENS[token],
-                    if to_server { "from the client" } else { "from the server" },
-                    show(got_idx),
-                    if bad_err { " (wrong error value)" } else { "" },
-                    show(want)
-                )
-            });
         }
-        // the monitor's policy after a rejected message
-        state = match got_idx {
-            Some(s) => s,
-            None => {
-                if onerr_invalid {
-                    24
-                } else {
-                    before
-                }
-            }
-        };
     }
     if steps >= 2 {
         ctx.nontrivial = true;
     }
+}
+
+#[allow(clippy::too_many_arguments)]
+fn do_step(ctx: &mut Ctx, edges: &[(usize, Dir, usize, usize)], state: &mut usize, msg: &TlsMessage, to_server: bool, token: usize, onerr_invalid: bool, steps: &mut u32) {
+    let before = *state;
+    let got = match ctx.call("tls_state_transition", 0, 0, || tls_state_transition(real_state(before), msg, to_server)) {
+        Some(g) => g,
+        None => return,
+    };
+    let want = accept(edges, before, token, to_server);
+    let got_idx: Option<usize> = match &got {
+        Ok(s) => Some(state_index(*s)),
+        Err(_) => None,
+    };
+    let cell = ((before * 2 + to_server as usize) * 23 + token) as u32;
+    ctx.cell("transition", cell);
+    ctx.log(8, cell as u64, got_idx.map(|x| x as u64 + 1).unwrap_or(0));
+    ctx.trace(8, cell as u64 * 32 + got_idx.map(|x| x as u64 + 1).unwrap_or(0), 0);
+    *steps += 1;
+    let bad_err = matches!(&got, Err(e) if *e != StateChangeError::InvalidTransition);
+    if got_idx != want || bad_err {
+        let show = |x: Option<usize>| x.map(|i| format!("Ok({})", STATES[i])).unwrap_or_else(|| "Err(InvalidTransition)".into());
+        ctx.violate(Prop::C08, format!("flow/{}/{}/{}", STATES[before], if to_server { "to_server" } else { "to_client" }, TOKENS[token]), || {
+            format!(
+                "state {} + {} {}: tls_state_transition answered {}{}, the documented flows say {}",
+                STATES[before],
+                TOKENS[token],
+                if to_server { "from the client" } else { "from the server" },
+                show(got_idx),
+                if bad_err { " (wrong error value)" } else { "" },
+                show(want)
+            )
+        });
+    }
+    // the monitor's policy after a rejected message
+    *state = match got_idx {
+        Some(s) => s,
+        None => {
+            if onerr_invalid {
+                24
+            } else {
+                before
+            }
+        }
+    };
 }
 
 pub fn cell_name(id: u32) -> String {
